@@ -2,6 +2,7 @@
 from fractions import Fraction as Fr
 
 from .. import expr as X
+from ..models_pd import TS
 from ..streams_h import Table, make_config_source, run_frontend
 from .c05 import StreamOutcome, t
 from .c17 import equal_flags
@@ -20,6 +21,9 @@ FAULTS = {
     'aggregate-listed-as-test': ('a', ('qartod', 'aggregate', {})),      # documented spelling; aggregate() cannot run as a stream test
     'name-of-a-non-test-attribute': ('a', ('qartod', 'np', {'x': 1})),
     'name-of-an-imported-helper': ('b', ('qartod', 'mapdates', {'dates': [1]})),
+    # a list-valued configuration whose *later* member is malformed (three numbers for a span): nothing of it may survive, however often it is read
+    'climatology-with-a-rejected-later-member': ('a', ('qartod', 'climatology_test', {'config': [
+        {'tspan': [TS(0), TS(10 ** 7)], 'vspan': [Fr(2), Fr(4)]}, {'tspan': [TS(0), TS(10 ** 7)], 'vspan': [Fr(1), Fr(2), Fr(3)]}]})),
     'unknown-dotted-module': ('a', ('qartod.extras', 'some_test', {'x': 1})),
     'unknown-nested-module': ('b', ('vendor.checks', 'some_test', {'x': 1})),
 }
@@ -116,6 +120,11 @@ def run(ck):
                 if 'time' in table.axes:
                     contexts = [dict(window=(None, None), tests=healthy(tname)), dict(window=(t(1), t(4)), tests={sid: [entry]})]
                     check_run(ck, fe, tname, fname, 'second-context', table, contexts, base_map, entry, sid, base_collected)
+                    if fname.startswith('climatology-') or thorough:
+                        # the same failing entry read in two contexts (and for two streams): it fails the second time as it did the first
+                        contexts = [dict(window=(None, None), tests=insert(healthy(tname), sid, entry, 'last')),
+                                    dict(window=(t(1), t(4)), tests={sid: [entry], 'b': [entry] if sid != 'b' else ['valid']})]
+                        check_run(ck, fe, tname, fname, 'both-contexts', table, contexts, base_map, entry, sid, None, also=[('b', entry)] if sid != 'b' else ())
             if tname == 'all-axes' and (thorough or fe in ('numpy', 'pandas')):
                 for f1, f2 in PAIRS:
                     (s1, e1), (s2, e2) = FAULTS[f1], FAULTS[f2]
